@@ -2,12 +2,12 @@ import OrbitModel.Proofs.Trim
 /-!
 # `Load(amount)`: the amount normalisation and the size clamp   (C15)
 
-`loadHead` joins the log fetched from one cached head and asks `Join` for a trim only when the
+`loadHead0` joins the log fetched from one cached head and asks `Join` for a trim only when the
 merged log would exceed the limit. `Join(size)` panics when `size` exceeds the number of values.
 The clamp counts *fetched entries not held*; `Join` merges only those reachable from the fetched
 heads through entries not held. The two agree when the log is closed under `next` (a fresh store),
 or when the log already holds `amount` entries; otherwise the clamp over-counts and `Join` can
-still panic (`loadHead_panic_nonclosed`).
+still panic (`loadHead0_panic_nonclosed`).
 -/
 namespace Orbit
 
@@ -51,8 +51,8 @@ def loadSize (amount : Int) (L : Log) (m : OMap) : Int :=
   let merged : Int := L.entries.length + (m.filter (fun e => !has L.entries e.hash)).length
   if amount > -1 && amount ≥ merged then -1 else amount
 
-theorem loadHead_eq (acl : Acl) (fetch : Nat → OMap) (amount : Int) (L : Log) (h : Nat) :
-    loadHead acl fetch amount L h =
+theorem loadHead0_eq (acl : Acl) (fetch : Nat → OMap) (amount : Int) (L : Log) (h : Nat) :
+    loadHead0 acl fetch amount L h =
       match joinSize acl.canAppend L (ofList (fetch h)) (ofList (findHeads (ofList (fetch h)))) L.id
           (loadSize amount L (ofList (fetch h))) with
       | .ok L' => .ok L'
@@ -77,15 +77,15 @@ theorem joinSize_cases (ca : Entry → Bool) (L : Log) (A hs : OMap) (size : Int
     · simp only [h2, if_true]; exact ⟨_, rfl, by decide⟩
     · simp only [h2]; exact ⟨_, rfl, by decide⟩
 
-/-- `loadHead` panics only through the trim -/
-theorem loadHead_panic_iff (acl : Acl) (fetch : Nat → OMap) (amount : Int) (L : Log) (h : Nat) :
-    loadHead acl fetch amount L h = .error .panic ↔
+/-- `loadHead0` panics only through the trim -/
+theorem loadHead0_panic_iff (acl : Acl) (fetch : Nat → OMap) (amount : Int) (L : Log) (h : Nat) :
+    loadHead0 acl fetch amount L h = .error .panic ↔
       (difference (ofList (fetch h)) (ofList (findHeads (ofList (fetch h)))) L).all
           (acceptable acl.canAppend) = true ∧
       loadSize amount L (ofList (fetch h)) > -1 ∧
       (loadSize amount L (ofList (fetch h))).toNat >
         (values (joinCore L (ofList (fetch h)) (ofList (findHeads (ofList (fetch h)))) L.id)).length := by
-  rw [loadHead_eq]
+  rw [loadHead0_eq]
   generalize ofList (fetch h) = m
   generalize loadSize amount L m = size
   rcases joinSize_cases acl.canAppend L m (ofList (findHeads m)) size with
